@@ -76,10 +76,26 @@ worker_seed_cb(tpt_p tpt, void *udata) {
 	do_sends((int)(intptr_t)udata, tpt);
 }
 
+static int detach_cb_runs = 0;
 static void
 detach_cb(tpt_p tpt, void *udata) {
 	(void)udata;
+	detach_cb_runs ++;
 	tp_thread_dettach(tpt);
+}
+
+/* the scenarios' own set-up sends are sends like any other: a failure report together with a callback run is the
+ * property's "a send that reports failure never runs the callback", not a problem of the harness */
+static void
+setup_send_verdict(int rc, int runs, const char *what) {
+	if (0 == rc && 1 == runs) return;
+	if (0 != rc && runs > 0)
+		sc_fail("failed-send-ran-callback", "%s: tpt_msg_send returned %d but its callback ran %d time(s)", what, rc, runs);
+	if (0 == rc && runs > 1)
+		sc_fail("message-duplicated", "%s: callback ran %d times", what, runs);
+	if (0 == rc && 0 == runs)
+		sc_fail("message-lost", "%s: accepted by a running thread, never ran", what);
+	sc_fail("harness", "%s rc=%d", what, rc);
 }
 
 /* ---- backlog scenarios: the destination is kept busy (gates) so that its queue holds a batch and
@@ -179,9 +195,11 @@ attach_tail_cb(tpt_p tpt, void *udata) {
 	if (0 != sc_self()) tail_wrong_thread ++;
 }
 
+static int attach_detach_runs = 0, attach_detach_rc = -12345;
 static void
 attach_detach_cb(tpt_p tpt, void *udata) {
 	(void)udata;
+	attach_detach_runs ++;
 	tp_thread_dettach(tpt);
 }
 
@@ -212,6 +230,7 @@ attach_scenario(int idx) {
 		pthread_join(helper, NULL);
 	}
 	sc_wait_quiescent();
+	setup_send_verdict(attach_detach_rc, attach_detach_runs, "detach message to the attached thread");
 	if (1 != probe_runs || 0 != probe_tid || 0 != probe_cur)
 		sc_fail("attached-thread-message", "message to the attached thread 0: ran %d time(s), on scheduler thread T%d, tpt_get_current()=%d", probe_runs, probe_tid, probe_cur);
 	if (tail_runs < tail_sent_ok)
@@ -238,7 +257,7 @@ c05_detach_sender(void *arg) {
 			int k;
 			sc_gate_wait(&probe_started, "probe_started");	/* thread 0 has read the probe alone and is inside its callback */
 			rc = tpt_msg_send(tp_thread_get(tpc_tp, 0), NULL, 0, attach_detach_cb, NULL);
-			if (0 != rc) sc_fail("harness", "detach send rc=%d", rc);
+			attach_detach_rc = rc;	/* judged after the thread has left the loop */
 			for (k = 0; k < 2; k ++) {
 				if (0 == tpt_msg_send(tp_thread_get(tpc_tp, 0), NULL, 0, attach_tail_cb, NULL)) tail_sent_ok ++;
 			}
@@ -293,9 +312,8 @@ msg_scenario(int idx) {
 	tpc_up(v->W, (v->notrun == 0 && 1 == v->notrun_mode));
 	if (v->notrun >= 0 && 2 == v->notrun_mode) {
 		rc = tpt_msg_send(tp_thread_get(tpc_tp, (size_t)v->notrun), NULL, 0, detach_cb, NULL);
-		if (0 != rc)
-			sc_fail("harness", "detach send rc=%d", rc);
 		sc_wait_quiescent();
+		setup_send_verdict(rc, detach_cb_runs, "detach message to a running worker");
 	}
 	memset(used, 0, sizeof(used));
 	for (k = 0; k < v->nsends; k ++)
